@@ -138,9 +138,14 @@ def run_case(route, shape, bpv, bs, d, idx):
                 write_numpy_sgz(p, src, bpv=bpv, blockshape=bs)
             elif route.startswith('segy'):
                 fmt = 1 if 'ibm' in route else 5
-                mk_segy(sgy, src, range(1, shape[0] + 1), range(10, 10 + shape[1]), fmt=fmt, ext_text=(1 if 'ext' in route else 0))
+                # line numbering varies with the case (never ordinal + constant 1 only): start and step of both axes
+                il0, dil = (1, 1) if idx % 3 == 0 else ((7, 3) if idx % 3 == 1 else (100, 2))
+                xl0, dxl = (10, 1) if idx % 2 == 0 else (21, 4)
+                inp['axes'] = [il0, dil, xl0, dxl]
+                mk_segy(sgy, src, range(il0, il0 + dil * shape[0], dil), range(xl0, xl0 + dxl * shape[1], dxl), fmt=fmt,
+                        ext_text=(1 if 'ext' in route else 0), sorting=(1 if 'xsort' in route else 2))
                 with segyio.open(sgy) as f:
-                    src = segyio.tools.cube(f).astype(np.float32)      # the source as segyio presents it (IBM -> float32)
+                    src = np.stack([np.asarray(f.iline[n_]) for n_ in f.ilines]).astype(np.float32)      # the source as segyio presents it, inline by inline (IBM -> float32; independent of the file's trace sorting)
                 win = None
                 if 'win' in route and shape[0] >= 3:
                     # an inline window that keeps every crossline (the case in which the reduced-I/O reader could be kept by mistake)
@@ -226,6 +231,12 @@ def main():
         for k in range(2 if not thorough else 6):
             idx += 1
             run_case('segy-min-ext', (rng.choice([3, 5, 6]), rng.choice([4, 7, 9]), rng.choice([9, 17])), 8, (4, 4, 256), d, idx)
+        # crossline-sorted SEG-Y (the inline number varies fastest in the file): segyio presents the same cube; the reduced-I/O
+        # reader's self-test must fall back to segyio
+        for k, rt in enumerate(['segy-xsort', 'segy-min-xsort', 'segy-xsort-win'] if not thorough else
+                               ['segy-xsort', 'segy-min-xsort', 'segy-xsort-win', 'segy-ibm-xsort', 'segy-min-xsort-win', 'segy-xsort']):
+            idx += 1
+            run_case(rt, (rng.choice([5, 6, 9]), rng.choice([4, 7, 10]), rng.choice([9, 17])), rng.choice([4, 8]), (4, 4, -1) if k % 2 == 0 else (8, 8, -1), d, idx)
         # 2-bit cubes whose line counts fall just below / at / above a multiple of 64 (the re-layout route's partial blocks)
         for sh in ([(62, 5, 9), (5, 63, 6), (65, 61, 5)] if not thorough else [(61, 5, 9), (62, 6, 5), (63, 5, 6), (64, 4, 5), (65, 5, 5), (5, 61, 9), (6, 63, 5), (126, 5, 5), (5, 127, 6)]):
             idx += 1
